@@ -648,7 +648,7 @@ Definition new_finish (c : cmd) (st2 : nstate) (h : hfile) (T : string)
 
 Definition new_make_gen (rs : resets) (c : cmd) (st : nstate) (v : pview) (T : string) : mres ndata nstate :=
   let st1 := new_reset rs c st in
-  match find_struct v T with
+  match (if has_prefix "_" T then None else find_struct v T) with     (* testNode refuses names starting with `_` *)
   | None => MFatal                                 (* logx.Fatalf("type not exists") *)
   | Some (_, h, s) =>
       let st2 := new_parse c st1 s (extract_top (S (List.length (pv_hand v))) c v s) in
@@ -1483,21 +1483,34 @@ Section Loop.
     end.
 End Loop.
 
-(* ListTypes of the four generators (package-level declarations of hand-written files; the declarations of
-   generated files are never eligible: _json_T is skipped by its prefix, the rest client struct is not an
-   interface, no generated file declares an integer type or an exported struct) *)
+(* ListTypes of the four generators: package-level declarations of every file of the package, in package order.
+   Generated files are ordinary files for the loader: `new` lists every struct type whose name does not start with
+   `_` (the _json_T helper of `new -json` is skipped by that test, the unexported client struct that `rest` generates
+   is NOT: open finding K_new_selects_generated), `map` every exported struct; no generated file declares an integer
+   type or an interface embedding shoot.RestClient. *)
+Definition eligible_gen (sc : subcmd) (a : afile) : list string :=
+  flat_map (fun d => match d_kind d, sc with
+                     | KType, CNew => if has_prefix "_" (d_name d) then [] else [d_name d]
+                     | KType, CMap => if is_exported (d_name d) then [d_name d] else []
+                     | _, _ => []
+                     end) (a_decls a).
+Definition eligible_hand (sc : subcmd) (d : hdecl) : list string :=
+  match d with
+  | HStruct s =>
+      match sc with
+      | CNew => if has_prefix "_" (ss_name s) then [] else [ss_name s]
+      | CMap => if is_exported (ss_name s) then [ss_name s] else []
+      | _ => []
+      end
+  | HInt n => match sc with CEnum => [n] | _ => [] end
+  | HIface r => match sc with CRest => [ri_name r] | _ => [] end
+  | _ => []
+  end.
 Definition list_types_of (sc : subcmd) (v : view) : list string :=
-  flat_map (fun x => match x with
-                     | (_, _, HStruct s) =>
-                         match sc with
-                         | CNew => if has_prefix "_" (ss_name s) then [] else [ss_name s]
-                         | CMap => if is_exported (ss_name s) then [ss_name s] else []
-                         | _ => []
-                         end
-                     | (_, _, HInt n) => match sc with CEnum => [n] | _ => [] end
-                     | (_, _, HIface r) => match sc with CRest => [ri_name r] | _ => [] end
-                     | _ => []
-                     end) (hand_decls v).
+  flat_map (fun f => match snd f with
+                     | FHand h => flat_map (eligible_hand sc) (h_decls h)
+                     | FGen a => eligible_gen sc a
+                     end) v.
 
 (* a package directory: hand-written files, files generated by OTHER shoot subcommands (inputs: the
    constructor/accessors of a shoot-new type the mapper reads), and for `map` the destination package *)
